@@ -472,7 +472,7 @@ Proof.
   - destruct (IH B) as [A' [E [L S]]]. cbn [app restart_all]. rewrite E.
     eexists (_ :: A'). split; [reflexivity|]. split; [cbn; congruence|].
     intro F. inversion F; subst. constructor; [|apply S; assumption].
-    destruct H1 as [Hd|Hs].
+    unfold start1. destruct H1 as [Hd|Hs].
     + rewrite Hd. apply restart_finish_settled. exact Hd.
     + rewrite finish_settled.
       * destruct (pr a) eqn:Ea; try exact Hs. unfold settled in Hs. rewrite Ea in Hs. discriminate.
@@ -487,7 +487,7 @@ Proof.
   induction Y as [|y r IH]; intro H; [cbn; auto|]. inversion H; subst.
   destruct (IH H3) as [I1 [I2 I3]]. cbn [map restart_all].
   destruct (clean_restart_alive sorted y (existsb live_active_s (map crash1 r)) H2) as [Hd [Ha Hs]].
-  rewrite Hd. cbn [forallb length]. rewrite Ha, I1, I3. auto.
+  unfold start1. rewrite Hd. cbn [forallb length]. rewrite Ha, I1, I3. auto.
 Qed.
 
 (* shape of the directory after an interrupted pass and a complete start *)
@@ -514,15 +514,6 @@ Proof.
 Qed.
 
 (* ------------------------------------------------------------------ the next pass *)
-
-Fixpoint pat (k : nat) (l : list bool) : list bool :=
-  match l with
-  | [] => []
-  | b :: r => match b, k with
-              | true, S k' => false :: pat k' r
-              | _, _ => b :: pat k r
-              end
-  end.
 
 Lemma next_pass_pat sorted : forall d k, Forall (fun s => settled s = true) d ->
   map alive (after_next_pass sorted k d) = pat k (map alive d).
@@ -825,16 +816,13 @@ Qed.
 
 (* ------------------------------------------------------------------ what a complete start makes of it *)
 
-Definition start1 (sorted : bool) (s : st) (b : bool) : st :=
-  finish sorted (match pr s with PDown => restart cur_progs sorted s b | _ => s end).
-
 Lemma restart_all_alive sorted (Q : st -> Prop) v :
   (forall s b, Q s -> alive (start1 sorted (crash1 s) b) = v) ->
   forall A B, Forall Q A ->
     map alive (restart_all sorted (map crash1 (A ++ B))) = repeat v (length A) ++ map alive (restart_all sorted (map crash1 B)).
 Proof.
   intros HQ A B HA. induction HA as [|a r Ha _ IH]; [reflexivity|].
-  cbn [app map restart_all length repeat]. fold (start1 sorted (crash1 a) (existsb live_active_s (map crash1 (r ++ B)))).
+  cbn [app map restart_all length repeat].
   rewrite HQ by exact Ha. rewrite IH. reflexivity.
 Qed.
 
